@@ -1735,6 +1735,48 @@ pub fn add_cross_package_extern(files: &mut Vec<(String, String)>) -> bool {
     false
 }
 
+/// Text-level addition to a rendered legal project: package `Shp16` (two structs), package `Rnd16` (imports Shp16;
+/// a trait, its impls for the Shp16 types and for int32 - the impls live in the TRAIT's package, not the type's),
+/// and Main, a third package that imports both, calls the trait statically and coerces the Shp16 values to
+/// `dyn Rnd16::Draw16` (annotated let, argument position, parameter of a Rnd16 function).
+pub fn add_dyn_third_package(files: &mut Vec<(String, String)>) -> bool {
+    let Some(mi) = files.iter().position(|(p, _)| p == "main.gom") else { return false };
+    if files.iter().any(|(p, _)| p.starts_with("Shp16/") || p.starts_with("Rnd16/")) {
+        return false;
+    }
+    let lines: Vec<String> = files[mi].1.lines().map(|l| l.to_string()).collect();
+    let Some(ml) = lines.iter().position(|l| l.starts_with("fn main(") && l.trim_end().ends_with('{')) else { return false };
+    let Some(il) = lines.iter().rposition(|l| l.starts_with("import ") || l.starts_with("package ")) else { return false };
+    if il >= ml {
+        return false;
+    }
+    let mut out = String::new();
+    for (i, l) in lines.iter().enumerate() {
+        if i == ml {
+            out.push_str("fn use_draw16(d: dyn Rnd16::Draw16) -> string {\n    \"<\" + Rnd16::Draw16::draw16(d) + \">\"\n}\n\n");
+        }
+        out.push_str(l);
+        out.push('\n');
+        if i == il {
+            out.push_str("import Rnd16\nimport Shp16\n");
+        }
+        if i == ml {
+            out.push_str("    let c16 = Shp16::Circle16 { r: 2 };\n    let s16 = Shp16::Square16 { side: 5 };\n    let _ = string_println(Rnd16::Draw16::draw16(c16));\n    let _ = string_println(Rnd16::show16(c16));\n    let d16: dyn Rnd16::Draw16 = s16;\n    let _ = string_println(Rnd16::Draw16::draw16(d16));\n    let _ = string_println(use_draw16(c16));\n    let _ = string_println(use_draw16(7));\n");
+        }
+    }
+    files[mi].1 = out;
+    files.push((
+        "Shp16/lib.gom".into(),
+        "package Shp16\n\nstruct Circle16 {\n    r: int32,\n}\n\nstruct Square16 {\n    side: int32,\n}\n".into(),
+    ));
+    files.push((
+        "Rnd16/lib.gom".into(),
+        "package Rnd16\nimport Shp16\n\ntrait Draw16 {\n    fn draw16(Self) -> string;\n}\n\nimpl Draw16 for Shp16::Circle16 {\n    fn draw16(self: Shp16::Circle16) -> string {\n        \"circle r=\" + int32_to_string(self.r)\n    }\n}\n\nimpl Draw16 for Shp16::Square16 {\n    fn draw16(self: Shp16::Square16) -> string {\n        \"square side=\" + int32_to_string(self.side)\n    }\n}\n\nimpl Draw16 for int32 {\n    fn draw16(self: int32) -> string {\n        \"int \" + int32_to_string(self)\n    }\n}\n\nfn show16(d: dyn Draw16) -> string {\n    \"[\" + Draw16::draw16(d) + \"]\"\n}\n".into(),
+    ));
+    files.sort();
+    true
+}
+
 pub fn gen_project(d: &mut Dec, ctx: &mut Ctx) -> Project {
     gen_project_sized(d, ctx, 0, 4)
 }
